@@ -171,6 +171,8 @@ impl<'a> Eval<'a> {
                     }
                 }
             }
+            // a named output as a value denotes its position among the outputs, in declaration order
+            GExpr::OutputPos(i) => Val::Int(BigInt::from(*i)),
             GExpr::Input(i) => {
                 let utxos = &env.inputs[*i];
                 match ctx {
